@@ -114,7 +114,10 @@ theorem opOk_tf (fmt : Fmt) (n : List Nat) (size : Flt) (disp : List Nat) (tok :
     simp only [List.mem_cons, List.not_mem_nil, or_false] at hx
     rcases hx with rfl | rfl | rfl
     · simp
-    · cases hd <;> simp
+    · cases hd with
+      | dec _ => simp
+      | int _ _ => simp
+      | plain _ => unfold tokOfPlain; split <;> simp
     · decide
 
 /-- `W S` -/
@@ -131,6 +134,59 @@ theorem opOk_clipStroke (fmt : Fmt) : OpOk fmt .clipStroke [.operator [87], .ope
     intro x hx
     simp only [List.mem_cons, List.not_mem_nil, or_false] at hx
     rcases hx with rfl | rfl <;> decide
+
+/-- `x y w h re / W / n` (the `Raw` of `clip_rect`, sanitised since the repair) -/
+theorem opOk_clipRect (fmt : Fmt) (hf : FmtOk fmt) (x y w h : Flt) :
+    OpOk fmt (.rawClipRect x y w h)
+      [.number (fmt 3 x), .number (fmt 3 y), .number (fmt 3 w), .number (fmt 3 h),
+       .operator [114, 101], .operator [87], .operator [110]] where
+  reads := by
+    simp only [pieces]
+    refine Reads.tok _ _ _ _ (.num _ _ (.dec (hf 3 x))) (fun _ => Or.inr ⟨.sp, _, rfl, rfl⟩) ?_
+    refine Reads.skip .sp _ _ .sp (fun t e => by cases e) ?_
+    refine Reads.tok _ _ _ _ (.num _ _ (.dec (hf 3 y))) (fun _ => Or.inr ⟨.sp, _, rfl, rfl⟩) ?_
+    refine Reads.skip .sp _ _ .sp (fun t e => by cases e) ?_
+    refine Reads.tok _ _ _ _ (.num _ _ (.dec (hf 3 w))) (fun _ => Or.inr ⟨.sp, _, rfl, rfl⟩) ?_
+    refine Reads.skip .sp _ _ .sp (fun t e => by cases e) ?_
+    refine Reads.tok _ _ _ _ (.num _ _ (.dec (hf 3 h))) (fun _ => Or.inr ⟨.sp, _, rfl, rfl⟩) ?_
+    refine Reads.skip .sp _ _ .sp (fun t e => by cases e) ?_
+    refine Reads.tok _ _ _ _ (.kw _ (by decide)) (fun _ => Or.inr ⟨.nl, _, rfl, rfl⟩) ?_
+    refine Reads.skip .nl _ _ .nl (fun t e => by cases e) ?_
+    refine Reads.tok _ _ _ _ (.kw _ (by decide)) (fun _ => Or.inr ⟨.nl, _, rfl, rfl⟩) ?_
+    refine Reads.skip .nl _ _ .nl (fun t e => by cases e) ?_
+    refine Reads.tok _ _ _ _ (.kw _ (by decide)) (fun _ => Or.inr ⟨.nl, _, rfl, rfl⟩) ?_
+    exact Reads.skip .nl _ _ .nl (fun t e => by cases e) Reads.nil
+  endsNl := ⟨[.num (fmt 3 x), .sp, .num (fmt 3 y), .sp, .num (fmt 3 w), .sp, .num (fmt 3 h), .sp,
+    .kw [114, 101], .nl, .kw [87], .nl, .kw [110]], rfl⟩
+  endsOp := Or.inr ⟨[.number (fmt 3 x), .number (fmt 3 y), .number (fmt 3 w), .number (fmt 3 h),
+    .operator [114, 101], .operator [87]], [110], rfl⟩
+  nobi := by
+    intro t ht
+    simp only [List.mem_cons, List.not_mem_nil, or_false] at ht
+    rcases ht with rfl | rfl | rfl | rfl | rfl | rfl | rfl <;> first | (simp; done) | decide
+
+theorem plain_no_dot (t : List Nat) (h : IsPlainInt t) : 46 ∉ t := by
+  have key : ∀ d : List Nat, allDigits d = true → 46 ∉ d := by
+    intro d hd
+    induction d with
+    | nil => simp
+    | cons b r ih =>
+      simp only [allDigits, Bool.and_eq_true] at hd
+      have : b ≠ 46 := by
+        have := hd.1; simp [isDigit] at this; omega
+      simp only [List.mem_cons, not_or]
+      exact ⟨Ne.symm this, ih hd.2⟩
+  rcases h with ⟨_, hd⟩ | ⟨d, rfl, _, hd⟩
+  · exact key t hd
+  · simp only [List.mem_cons, not_or]
+    exact ⟨by decide, key d hd⟩
+
+/-- popping a plain integer token gives the authored numeric argument, whatever its magnitude -/
+theorem popNumber_plain (t : List Nat) (S : Stack) (h : IsPlainInt t) :
+    popNumber (tokOfPlain t :: S) = some (numArg t, S) := by
+  have hd := plain_no_dot t h
+  unfold tokOfPlain numArg
+  cases hp : parseI32 t <;> simp [popNumber, hd]
 
 /-- `% text` without a line feed: no token at all -/
 theorem opOk_comment (fmt : Fmt) (t : List Nat) (h : ∀ b ∈ t, b ≠ 10) : OpOk fmt (.comment t) [] where
